@@ -2,13 +2,14 @@
 C16 — inversion of every message of the model (`step s op = .ok s'` gives the checks that
 passed and the exact successor state) and preservation of the store invariants by `step`.
 -/
-import PvProofs.Lemmas.AttrSweep
+import PvProofs.Lemmas.AttrCap
 
 set_option linter.unusedSimpArgs false
 set_option linter.unusedVariables false
 
 namespace PvProofs.Lemmas.AttrStep
 open PvModel.Attr PvProofs.Lemmas.AttrStore PvProofs.Lemmas.AttrInv PvProofs.Lemmas.AttrSweep
+  PvProofs.Lemmas.AttrCap
 
 /-! ### inversions -/
 
@@ -166,11 +167,18 @@ theorem deleteName_ok {s s' : State} {sg name : String} (h : step s (.deleteName
   exact ⟨h2, h.symm⟩
 
 theorem begin_ok {s s' : State} {t : Nat} (h : step s (.beginBlock t) = .ok s') :
-    s' = ((s.queue.filter (fun q => decide (q.1 < t))).foldl expireOne { s with now := t }) := by
+    s' = deleteExpiredAttributes { s with now := t } maxExpiredAttributionCount := by
   simp only [step] at h
-  unfold deleteExpiredAttributes at h
   injection h with h
   exact h.symm
+
+/-- The capped sweep is a fold of `expireOne` over some list of due queue entries (a prefix of
+the due entries in store order). -/
+theorem begin_fold {s s' : State} {t : Nat} (h : step s (.beginBlock t) = .ok s') :
+    ∃ l : List (Nat × Key), (∀ q ∈ l, q ∈ s.queue ∧ q.1 < t) ∧
+      s' = l.foldl expireOne { s with now := t } := by
+  obtain ⟨l, hl, e⟩ := sweep_is_fold s t maxExpiredAttributionCount
+  exact ⟨l, hl, by rw [begin_ok h, e]⟩
 
 /-! ### invariants across a message -/
 
@@ -299,7 +307,7 @@ theorem step_inv {s s' : State} {op : Op} (hi : Inv s) (h : step s op = .ok s') 
     rw [kvGet_erase]
     simp [Ne.symm hr2, hb]
   | beginBlock t =>
-    rw [begin_ok h]
+    obtain ⟨l, _, rfl⟩ := begin_fold h
     exact foldl_expireOne_inv _ _ ⟨hi.keys, hi.cntGe, hi.bound, hi.queueComplete⟩
 
 /-- Initial states: an empty attribute store (any names, accounts, block time). -/
